@@ -152,7 +152,7 @@ loop:
 	if evS == "" {
 		evS = "-"
 	}
-	d := desync.VerifDiscriminator(c.Avg)
+	d := c02D(o, c.Avg)
 	ans, err := o.Call("c02.ptrace", fmt.Sprint(c.N), u(c.Min), u(c.Max), u(uint64(d)), vh.Hex(blob), evS)
 	if err != nil {
 		return err
@@ -225,5 +225,57 @@ func c02Trace(a vh.Args, o *vh.Oracle, r *vh.Result, rng *vh.Rand, n int) error 
 			r.Sample(map[string]interface{}{"kind": "trace", "min": mn, "avg": av, "max": mx, "len": len(blob), "n": nw, "shape": shape})
 		}
 	}
+	return nil
+}
+
+// c02DiscSweep compares discriminatorFromAvg with the exact-quotient model of casync's formula
+// (Model/Discriminator.v) for every avg in 48..4096, every KiB multiple up to 8192 KiB and random
+// values below 9,000,000 (the range in which float64 evaluation and exact quotient were compared
+// exhaustively).  The discriminator is part of the rule: a difference is a property violation.
+func c02DiscSweep(o *vh.Oracle, r *vh.Result, rng *vh.Rand, nrandom int) error {
+	if o == nil {
+		return nil
+	}
+	var avgs []uint64
+	for a := uint64(48); a <= 4096; a++ {
+		avgs = append(avgs, a)
+	}
+	for k := uint64(1); k <= 8192; k++ {
+		avgs = append(avgs, k*1024)
+	}
+	for i := 0; i < nrandom; i++ {
+		avgs = append(avgs, uint64(48+rng.Intn(8999000)))
+	}
+	const batch = 2000
+	for i := 0; i < len(avgs); i += batch {
+		j := i + batch
+		if j > len(avgs) {
+			j = len(avgs)
+		}
+		var parts []string
+		for _, a := range avgs[i:j] {
+			parts = append(parts, u(a))
+		}
+		ans, err := o.Call("c02.disc", strings.Join(parts, ","))
+		if err != nil {
+			return err
+		}
+		ds := strings.Split(ans, ",")
+		if len(ds) != j-i {
+			return fmt.Errorf("c02.disc: %d answers for %d values", len(ds), j-i)
+		}
+		for k, a := range avgs[i:j] {
+			got := u(uint64(desync.VerifDiscriminator(a)))
+			r.Corr()
+			if got != ds[k] {
+				r.Fail("predicate", "disc/differs-from-casync-formula",
+					fmt.Sprintf("discriminatorFromAvg(%d) = %s, casync's formula gives %s", a, got, ds[k]),
+					map[string]interface{}{"kind": "disc", "avg": a, "impl": got, "expected": ds[k]})
+				return nil
+			}
+		}
+	}
+	r.Count("disc-sweep", true)
+	r.Dist(fmt.Sprintf("disc:values~%d", len(avgs)/1000*1000))
 	return nil
 }
